@@ -94,6 +94,49 @@ def run(ctx):
         v["key"] = "C20.Y3|" + v["key"]
     y4(ctx, F, D)
     y5(ctx, F)
+    y6(ctx, F)
+
+
+def y6(ctx, F):
+    """Y6 the move record lists the moves that were played and stayed played: a function that appends to the record
+    (Game::push_history) never takes a move back itself (Game::pop does not shorten the record, so a recorded move that is taken
+    back stays listed).  Y7 the `Hash:` line belongs to the position shown: the importer's hash rules of C04 (every square folded
+    exactly once, keys of the position only) - a game loaded from text is displayed before any move is played."""
+    from . import mir, p04
+    g = mir.callgraph(F)
+    rec = sorted(p for p, cs in g.items() if "chess::Game::push_history" in cs)
+    ctx.floor("C20.Y6", "functions that record a move", len(rec), 1)
+    for p in rec:
+        ctx.check("C20.Y6", "recorded-moves-are-not-taken-back:%s" % p, "chess::Game::pop" not in g.get(p, ()), fn=p, file=F.fn(p)["file"],
+                  line=F.fn(p)["span"][0],
+                  what="a function records a move in the game's move list and can take a move back: the take-back restores the board but "
+                       "not the list, so `show` lists a move that is not part of the game",
+                  expected="no call of Game::pop next to Game::push_history", found=sorted(c for c in g.get(p, ()) if c.startswith("chess::Game::p")))
+    # ... and every played move gets into the record: push_history appends to a list that can hold a whole game (the position
+    # command accepts up to 400 plies) by an operation that cannot drop the move silently
+    import re as _re
+    ph = F.fn("chess::Game::push_history")
+    symp = hir.Sym(hir.Env(ph["hir"], F), F)
+    apps = [c for c, _ in hir.walk(ph["hir"]["body"]) if c.get("k") == "MethodCall" and c["name"] in ("push", "try_push", "push_unchecked", "insert", "extend")
+            and hir.fmt(symp(c["recv"]), 60).endswith("move_stack")]
+    fty = next((f_["ty"] for f_ in F.adt("chess::Game")["variants"][0]["fields"] if f_["name"] == "move_stack"), "")
+    m_cap = _re.search(r"ArrayVec<.*,\s*(\d+)>", fty)
+    cap = int(m_cap.group(1)) if m_cap else None
+    ok = len(apps) == 1 and apps[0]["name"] in ("push", "push_unchecked") and (cap is None or cap >= 512) and \
+        (fty.startswith(("std::vec::Vec<", "alloc::vec::Vec<")) or cap is not None)
+    ctx.check("C20.Y6", "every-recorded-move-is-kept", ok, fn=ph["path"], file=ph["file"], line=ph["span"][0],
+              what="the move record can lose a played move: it is appended by an operation that drops it when the list is full, or the list "
+                   "cannot hold a whole game (the position command accepts 400 plies)",
+              expected="Vec::push (or a fixed list of at least 512 entries, pushed infallibly)",
+              found={"appends": [c["name"] for c in apps], "type": fty})
+    before, nv = len(ctx.instances), len(ctx.violations)
+    p04.rule_k5(ctx, F)
+    p04.rule_k6(ctx, F)
+    for i in ctx.instances[before:]:
+        i["rule"] = "C20.Y7(" + i["rule"] + ")"
+    for v in ctx.violations[nv:]:
+        v["rule"] = "C20.Y7(" + v["rule"] + ")"
+        v["key"] = "C20.Y7|" + v["key"]
 
 
 def y1(ctx, F, D):
@@ -264,16 +307,35 @@ def y3(ctx, F):
         want_sq = ("call", "chess::position::Position::new_assert", (("var", rowv), ("var", colv)))
         sq_ok = _contains(a, ("call", "chess::Game::get_position", (("var", "self"), want_sq)))
         gp = ("call", "chess::Game::get_position", (("var", "self"), want_sq))
-        v_none = hir.fold(a, {gp: ("variant", "std::prelude::v1::None")})
-        v_some = hir.fold(a, {gp: ("ctor", "std::prelude::v1::Some", (("var", "P"),))})
+        # the plain form `{}` is what `show` prints; an alternate form `{:#}` (if the code asks for it) may use another rendering of
+        # the same piece
+        # a local chosen from the formatter's flags (`let glyph = if f.alternate() {..} else {..}`): the flags do not change while
+        # the value is being formatted, so the local is its initialiser
+        symT = hir.Sym(hir.Env(fn["hir"], F), F, through=True)
+        for x, _ in hir.walk(fn["hir"]["body"]):
+            if x.get("k") == "SLet" and x["pat"].get("k") == "PBind" and x.get("init") is not None and _contains(a, ("var", x["pat"]["name"])):
+                iv = symT(x["init"])
+                if any(isinstance(t, tuple) and t[:1] == ("call",) and ("fmt::Formatter" in str(t[1]) and str(t[1]).endswith("::alternate")) for t in hir.subterms(iv)):
+                    a = hir.subst(a, {("var", x["pat"]["name"]): iv})
+        alt = {t for t in hir.subterms(a) if isinstance(t, tuple) and t[:1] == ("call",) and ("fmt::Formatter" in str(t[1]) and str(t[1]).endswith("::alternate"))}
+        plain = {t: ("lit", False) for t in alt}
+        v_none = hir.fold(a, {**plain, gp: ("variant", "std::prelude::v1::None")})
+        v_some = hir.fold(a, {**plain, gp: ("ctor", "std::prelude::v1::Some", (("var", "P"),))})
         glyph_ok = v_none == ("lit", " ") and v_some == ("call", "chess::piece::Piece::as_char", (("var", "P"),))
+        if alt and glyph_ok:
+            other = {t: ("lit", True) for t in alt}
+            w_none = hir.fold(a, {**other, gp: ("variant", "std::prelude::v1::None")})
+            w_some = hir.fold(a, {**other, gp: ("ctor", "std::prelude::v1::Some", (("var", "P"),))})
+            glyph_ok = w_none == ("lit", " ") and w_some[:1] == ("call",) and str(w_some[1]).startswith("chess::piece::Piece::") and \
+                w_some[2] == (("var", "P"),)
         ctx.check("C20.Y3", "cell=piece-on-(row,col)", sq_ok, fn=P, file=fn["file"], line=hir.line(n),
                   what="the cell printed at (row, col) is not the piece standing on (row, col)",
                   expected="get_position(new_assert(%s, %s))" % (rowv, colv), found=hir.fmt(a, 300))
         ctx.check("C20.Y3", "cell-glyph-or-blank", glyph_ok, fn=P, file=fn["file"], line=hir.line(n),
                   what="a cell shows the piece's glyph, or a blank for an empty square", found=hir.fmt(a, 300))
         # row label
-        labels = site(lambda w: len(loop_binders(w[3])) == 1 and w[2])
+        # (only prints inside the row loop of the diagram: another loop elsewhere in the display is not a row label)
+        labels = site(lambda w: len(loop_binders(w[3])) == 1 and w[2] and loop_binders(w[3])[0][0] == loops[0][0])
         lab_ok = len(labels) == 1 and labels[0][2][0][1] in (("bin", "+", ("var", rowv), ("lit", 1)), ("bin", "+", ("lit", 1), ("var", rowv)))
         ctx.check("C20.Y3", "row-label=row+1", lab_ok, fn=P, file=fn["file"], line=hir.line(labels[0][0]) if labels else None,
                   what="each printed row must be labelled with its rank (row + 1)", expected="%s + 1" % rowv,
@@ -286,13 +348,17 @@ def y3(ctx, F):
 def y3_show(ctx, F):
     fn = F.fn("uci::command_show")
     ws, sym = fmt_writes(fn, F)
-    ok = len(ws) == 1 and ws[0][2] and ws[0][2][0][0] == "new_display"
+    ok = len(ws) >= 1
     src = None
-    if ok:
-        g = [x[1] for x in ws[0][3] if x[0] == "if" and x[2] is True and x[1][0] == "let"]
-        arg = ws[0][2][0][1]
-        ok = len(g) == 1 and g[0][3] and arg == ("var", g[0][3][0]) and "data.current_game" in hir.fmt(g[0][2], 120)
-        src = hir.fmt(g[0][2], 120) if g else None
+    for w in ws:
+        # every print of the command (there may be several forms of the same display) shows the session's current game
+        okw = bool(w[2]) and w[2][0][0] == "new_display"
+        if okw:
+            g = [x[1] for x in w[3] if x[0] == "if" and x[2] is True and x[1][0] == "let"]
+            arg = w[2][0][1]
+            okw = len(g) == 1 and bool(g[0][3]) and arg == ("var", g[0][3][0]) and "data.current_game" in hir.fmt(g[0][2], 120)
+            src = hir.fmt(g[0][2], 120) if g else None
+        ok = ok and okw
     ctx.check("C20.Y3", "show-prints-the-session's-current-game", ok, fn=fn["path"], file=fn["file"],
               what="`show` must print the Display of the session's current game", found=src)
     talk = F.fn("uci::uci_talk")
